@@ -8,6 +8,11 @@
 namespace C {
 
 // ------------------------------------------------------------------ names
+// a ctype<char> facet whose white space also contains ',' and ';' (what a program reading separated values imbues in its input stream)
+struct CsvCtype : std::ctype<char> {
+    static const mask *table() { static std::vector<mask> t(classic_table(), classic_table() + table_size); t[(unsigned char)','] |= space; t[(unsigned char)';'] |= space; return t.data(); }
+    CsvCtype() : std::ctype<char>(table()) {}
+};
 static const char *const AKN[AK__COUNT] = {"schar", "uchar", "short", "ushort", "int", "uint", "long", "ulong", "llong", "ullong", "bool", "char", "wchar_t",
     "char16_t", "char32_t", "char8_t", "float", "double", "complex", "cstr", "wcstr", "c16str", "c32str", "c8str", "ST::string", "std::string", "wstring",
     "u16string", "u32string", "u8string", "string_view", "wstring_view", "u16string_view", "u32string_view", "u8string_view", "null_cstr", "raw_bytes"};
@@ -16,7 +21,7 @@ static const char *const SKN[SK__COUNT] = {"printf(FILE*)", "writef<char>", "wri
     "u16ostream<<", "u32ostream<<", "istream>>", "wistream>>", "format_latin_1", "printf(stdout)", "format(validation)/_stfmt"};
 const char *sink_name(int k) { return (k >= 0 && k < SK__COUNT) ? SKN[k] : "?"; }
 static const char *const PCN[PC__COUNT] = {"overflow_inside_padding_run", "overflow_between_surrogate_units", "eof_exactly_at_token_end", "refill_boundary_inside_multibyte_char",
-    "flush_or_overflow_inside_call", "chunk_not_self_contained_generated", "invalid_token_rejected", "skipped_char16_sink_output_contains_U+FFFF", "extraction_with_field_width", "file_sink_with_stale_error_indicator", "file_sink_after_an_earlier_call_threw", "ostream_sink_with_pending_width_and_fill"};
+    "flush_or_overflow_inside_call", "chunk_not_self_contained_generated", "invalid_token_rejected", "skipped_char16_sink_output_contains_U+FFFF", "extraction_with_field_width", "file_sink_with_stale_error_indicator", "file_sink_after_an_earlier_call_threw", "ostream_sink_with_pending_width_and_fill", "extraction_with_imbued_locale"};
 const char *probe_name(int i) { return (i >= 0 && i < PC__COUNT) ? PCN[i] : "?"; }
 
 // ------------------------------------------------------------------ plan text
@@ -528,6 +533,8 @@ RunResult run_plan(const Plan &p, Stats *st, std::vector<uint64_t> *nt_pairs) {
                 // the same formatting state on both streams: a field width (limits the token, reset by the extraction) and skipws off
                 const unsigned wsel = (k.b >> 13) & 7; const std::streamsize fw = wsel < 5 ? 0 : wsel == 5 ? 1 : wsel == 6 ? 3 : 1 + (std::streamsize)(k.a % 12);
                 if (((k.b >> 16) & 7) == 7) { ia.unsetf(std::ios_base::skipws); ib.unsetf(std::ios_base::skipws); }
+                // a locale imbued in the stream by its owner decides what separates tokens (here: ',' and ';' are white space too)
+                if constexpr (std::is_same_v<Ch, char>) if (((k.b >> 16) & 7) == 6) { std::locale csv(std::locale::classic(), new CsvCtype()); ia.imbue(csv); ib.imbue(csv); if (st) st->probe[PC_EXTRACT_IMBUED_LOCALE]++; }
                 ST::string target; { simrt::SutScope sc; target = ST::string::from_validated("previous", 8); }
                 for (unsigned round = 0; round < rounds && !V.set; round++) {
                     std::basic_string<Ch> tok; Ex exa = X_NONE;
